@@ -155,7 +155,12 @@ CHECKS["C08"] = dict(
     text="Theorems about the Hexital model: a member on its own manager behaves exactly like the standalone indicator with the same "
          "manager configuration (values and exceptions); members sharing a manager never alter candle OHLCV/timestamps nor each "
          "other's entries (engine frame theorem, all 27 kinds); a member without helper series that shares a manager with any other "
-         "members has, candle by candle, the entries of its standalone twin (non-interference theorem). Tie: the Hexital model run against hexital.Hexital (check_hx). "
+         "members has, candle by candle, the entries of its standalone twin (non-interference theorem); candle management ignores readings "
+         "(collapse, fill, conversion and trimming of lists that agree up to readings agree again and raise alike), so along any program of "
+         "append / calculate / purge / recalculate / calculate_index / remove_indicator / add_indicator the Hexital's managers agree with a "
+         "bare dictionary of candle managers given the same appends; and in a Hexital without timeframe and lifespan of its own (HA and fill free) every "
+         "member timeframe holds, up to readings, the candles of a standalone CandleManager with the member's effective settings built over the "
+         "stream as it was when the timeframe appeared (construction or later add_indicator) and given every later chunk. Tie: the Hexital model run against hexital.Hexital (check_hx). "
          "Falsifier: member vs standalone twin fed the same schedule, object/"
          "dict/settings forms, Hexital-level timeframe/fill/lifespan/HA, member timeframes that need not divide one another, base candles unaltered.",
     note="The Hexital model (construction incl. own-timeframe seeding, append and all maintenance operations) is executed against "
